@@ -59,43 +59,81 @@ Proof.
   discriminate.
 Qed.
 
-Definition is_ok (r : sres) : bool := match r with SOk _ => true | SRaise _ => false end.
-Definition is_fok (r : fres) : bool := match r with FOk _ => true | FRaise _ => false end.
+Definition is_ok (r : sres) : bool := match r with SOk d => negb (is_exn d) | SRaise _ => false end.
+Definition is_fok (r : fres) : bool :=
+  match r with FOk ds => negb (existsb is_exn ds) | FRaise _ => false end.
 
 Definition s_under (k : N) (r : sres * mstate) (st : mstate) : Prop :=
   su k st (snd r) (is_ok (fst r)) /\ (forall d, fst r = SOk d -> under k d).
 Definition f_under (k : N) (r : fres * mstate) (st : mstate) : Prop :=
   su k st (snd r) (is_fok (fst r)) /\ (forall ds, fst r = FOk ds -> Forall (under k) ds).
 
-Lemma collect_sync_under k keys ds : Forall (under k) ds -> under k (collect_sync keys ds).
+Lemma add_orphans_under k ds : forall st, Forall (under k) ds -> su k st (add_orphans ds st) false.
 Proof.
-  intros H. unfold collect_sync. destruct (all_vals ds); [constructor|].
-  constructor; [constructor; exact H|constructor].
+  unfold add_orphans. induction ds as [|d ds IH]; intros st H; simpl; [apply su_refl|].
+  inversion H; subst.
+  exact (su_trans _ _ _ _ _ _ (su_orphan k st d H2) (IH (add_orphan d st) H3)).
 Qed.
-Lemma gather_sync_under k ds : Forall (under k) ds -> under k (gather_sync ds).
-Proof. intros H. unfold gather_sync. destruct (all_vals ds); constructor. exact H. Qed.
+
+Lemma first_exn_none ds : first_exn ds = None -> existsb is_exn ds = false.
+Proof.
+  induction ds as [|d ds IH]; simpl; [reflexivity|]. destruct d; simpl; auto. discriminate.
+Qed.
+
+Definition d_under (k : N) (r : D * mstate) (st : mstate) : Prop :=
+  under k (fst r) /\ su k st (snd r) (negb (is_exn (fst r))).
+
+Lemma gather_norm_under k ds st : Forall (under k) ds -> d_under k (gather_norm ds st) st.
+Proof.
+  intros H. unfold gather_norm. destruct (first_exn ds) as [x|].
+  - split; [constructor|]. apply add_orphans_under. exact H.
+  - destruct (all_vals ds); (split; [constructor; try exact H|apply su_refl]).
+Qed.
+
+Lemma gather_norm_not_exn ds st :
+  is_exn (fst (gather_norm ds st)) = false -> first_exn ds = None.
+Proof.
+  unfold gather_norm. destruct (first_exn ds); [discriminate|reflexivity].
+Qed.
+
+Lemma items_to_s_under k r st :
+  f_under k r st ->
+  s_under k (match r with
+             | (FOk ds, st1) => let '(d, st2) := gather_sync ds st1 in (SOk d, st2)
+             | (FRaise x, st1) => (SRaise x, st1)
+             end) st.
+Proof.
+  destruct r as [[ds|x] st1]; unfold f_under, s_under; cbn [fst snd is_ok is_fok]; intros [A B].
+  - assert (Hu : Forall (under k) ds) by (apply B; reflexivity).
+    unfold gather_sync. pose proof (gather_norm_under k ds st1 Hu) as [U S].
+    pose proof (gather_norm_not_exn ds st1) as Hne.
+    destruct (gather_norm ds st1) as [d st2]. cbn [fst snd is_ok] in *.
+    split; [|intros d0 H0; inversion H0; subst; exact U].
+    destruct (is_exn d) eqn:Ee; cbn [negb] in *.
+    + exact (su_weaken _ _ _ _ (su_trans _ _ _ _ _ _ A S)).
+    + rewrite (first_exn_none ds (Hne eq_refl)) in A. exact (su_trans _ _ _ _ _ _ A S).
+  - split; [exact A|]. intros d Hd. discriminate.
+Qed.
 
 Lemma fields_to_s_under k keys r st :
   f_under k r st ->
   s_under k (match r with
-             | (FOk ds, st1) => (SOk (collect_sync keys ds), st1)
+             | (FOk ds, st1) => let '(d, st2) := collect_sync keys ds st1 in (SOk d, st2)
              | (FRaise x, st1) => (SRaise x, st1)
              end) st.
 Proof.
-  destruct r as [[ds|x] st1]; unfold f_under, s_under; cbn [fst snd is_ok is_fok]; intros [A B].
-  - split; [exact A|]. intros d Hd. inversion Hd; subst. apply collect_sync_under. apply B. reflexivity.
-  - split; [exact A|]. intros d Hd. discriminate.
-Qed.
-Lemma items_to_s_under k r st :
-  f_under k r st ->
-  s_under k (match r with
-             | (FOk ds, st1) => (SOk (gather_sync ds), st1)
-             | (FRaise x, st1) => (SRaise x, st1)
-             end) st.
-Proof.
-  destruct r as [[ds|x] st1]; unfold f_under, s_under; cbn [fst snd is_ok is_fok]; intros [A B].
-  - split; [exact A|]. intros d Hd. inversion Hd; subst. apply gather_sync_under. apply B. reflexivity.
-  - split; [exact A|]. intros d Hd. discriminate.
+  intros H. pose proof (items_to_s_under k r st H) as G.
+  destruct r as [[ds|x] st1]; [|exact G]. unfold collect_sync. unfold gather_sync in G.
+  destruct (gather_norm ds st1) as [g st2]. unfold s_under in *. cbn [fst snd is_ok] in *.
+  destruct G as [S U]. assert (Ug : under k g) by (apply U; reflexivity).
+  assert (Hdef : is_done g = false -> su k st st2 (negb (is_exn (Bind g (KCollect keys)))) /\
+                 (forall d, SOk (Bind g (KCollect keys)) = SOk d -> under k d)).
+  { intros Hd. split.
+    - destruct g; try discriminate; exact S.
+    - intros d Hd0. inversion Hd0; subst. constructor; [exact Ug|constructor]. }
+  destruct g as [v|x| | |]; try (apply Hdef; reflexivity).
+  - split; [exact S|]. intros d Hd. inversion Hd; subst. constructor.
+  - split; [exact S|]. intros d Hd. inversion Hd; subst. constructor.
 Qed.
 
 Lemma nonnull_wrap_under k nn p r st :
@@ -104,14 +142,17 @@ Proof.
   intros Hp. unfold nonnull_wrap. destruct nn; [|auto]. destruct r as [[d|x] st']; [|auto].
   unfold s_under. cbn [fst snd is_ok]. intros [A B].
   assert (Hd : under k d) by (apply B; reflexivity).
-  assert (Hdef : s_under k (SOk (Bind d (KNonNull p)), st') st).
-  { split; [exact A|]. intros d0 H0. inversion H0; subst. constructor; [exact Hd|constructor; exact Hp]. }
-  destruct d as [v| | | |]; try exact Hdef.
-  cbn [fst snd is_ok]. split.
-  - destruct (is_null v); [|exact A].
-    pose proof (su_trans k st st' (emit (LErr p ENonNull) st') true true A
-                         (su_emit k st' (LErr p ENonNull) Hp)) as H. exact H.
-  - intros d0 H0. inversion H0; subst. constructor.
+  assert (Hdef : is_done d = false -> s_under k (SOk (Bind d (KNonNull p)), st') st).
+  { intros Hnd. split; cbn [fst snd is_ok is_exn negb].
+    - destruct d; try discriminate; exact A.
+    - intros d0 H0. inversion H0; subst. constructor; [exact Hd|constructor; exact Hp]. }
+  destruct d as [v|x| | |]; try (apply Hdef; reflexivity).
+  - cbn [fst snd is_ok is_exn negb] in *. split.
+    + destruct (is_null v); [|exact A].
+      exact (su_trans k st st' (emit (LErr p ENonNull) st') true true A
+                      (su_emit k st' (LErr p ENonNull) Hp)).
+    + intros d0 H0. inversion H0; subst. constructor.
+  - split; [exact A|]. intros d0 H0. inversion H0; subst. constructor.
 Qed.
 
 Lemma f_under_cons k r1 st1 st (rest : mstate -> fres * mstate) :
@@ -127,11 +168,35 @@ Proof.
   unfold s_under. cbn [fst snd]. intros [A B] Hrest. destruct r1 as [d|x]; cbn [is_ok] in A.
   - assert (Hd : under k d) by (apply B; reflexivity). specialize (Hrest st1).
     destruct (rest st1) as [[ds|x] st2]; unfold f_under in *; cbn [fst snd is_fok] in *; destruct Hrest as [A2 B2].
-    + split; [exact (su_trans _ _ _ _ _ _ A A2)|]. intros ds0 H0. inversion H0; subst.
-      constructor; [exact Hd|apply B2; reflexivity].
+    + split; [|intros ds0 H0; inversion H0; subst; constructor; [exact Hd|apply B2; reflexivity]].
+      cbn [existsb]. rewrite negb_orb. exact (su_trans _ _ _ _ _ _ A A2).
     + split; [|intros ds0 H0; discriminate].
-      pose proof (su_trans _ _ _ _ _ _ (su_trans _ _ _ _ _ _ A A2) (su_orphan k st2 d Hd)) as H. exact H.
+      exact (su_weaken _ _ _ _ (su_trans _ _ _ _ _ _ (su_trans _ _ _ _ _ _ A A2) (su_orphan k st2 d Hd))).
   - unfold f_under. cbn [fst snd is_fok]. split; [exact A|]. intros ds0 H0. discriminate.
+Qed.
+
+Lemma run_eager_under k : forall e t more st, under_p k (fst t) ->
+  su k st (snd (run_eager t more e st)) true /\
+  (forall t' m, fst (run_eager t more e st) = Some (t', m) -> under_p k (fst t')).
+Proof.
+  induction e as [|e IH]; intros t more st Ht; cbn [run_eager].
+  - cbn [fst snd]. split.
+    + exists [LInvoke t], []. cbn. rewrite app_nil_r.
+      split; [reflexivity|]. split; [reflexivity|]. split; [constructor; [exact Ht|constructor]|].
+      split; [constructor|reflexivity].
+    + intros t' m H. inversion H; subst. exact Ht.
+  - assert (S2 : su k st (emit (LFinish t) (emit (LInvoke t) st)) true).
+    { exact (su_trans _ _ _ _ _ _ (su_emit k st (LInvoke t) Ht) (su_emit k _ (LFinish t) Ht)). }
+    destruct more as [|m].
+    + split; [exact S2|]. intros t' m H. discriminate.
+    + destruct (IH (next_tid t) m (emit (LFinish t) (emit (LInvoke t) st)) Ht) as [S3 U3].
+      split; [exact (su_trans _ _ _ _ _ _ S2 S3)|exact U3].
+Qed.
+
+Lemma capture_under k r st : s_under k r st -> s_under k (capture r) st.
+Proof.
+  destruct r as [[d|x] st']; [auto|]. unfold s_under. cbn [fst snd capture is_ok is_exn negb].
+  intros [A _]. split; [exact A|]. intros d Hd. inversion Hd; subst. constructor.
 Qed.
 
 Section SyncUnder.
@@ -145,12 +210,14 @@ Section SyncUnder.
     (forall it inn p st, under_p k p -> s_under k (complete_item inn it p st) st).
   Proof.
     apply prog_mutind.
-    - intros kk dfr nn b IH p st Hp. cbn [key_of] in Hp. cbn [resolve_field]. destruct dfr as [n|].
-      + split; cbn [fst snd is_ok].
-        * exists [LInvoke (p ++ [kk], O)], []. cbn. rewrite app_nil_r.
-          split; [reflexivity|]. split; [reflexivity|]. split; [constructor; [exact Hp|constructor]|].
-          split; [constructor|reflexivity].
-        * intros d Hd. inversion Hd; subst. constructor; [constructor; exact Hp|constructor; exact Hp].
+    - intros kk dfr nn b IH p st Hp. cbn [key_of] in Hp. cbn [resolve_field]. destruct dfr as [[n e]|].
+      + destruct (run_eager_under k e (p ++ [kk], O) n st Hp) as [S1 U1].
+        destruct (run_eager (p ++ [kk], O) n e st) as [[[t m]|] st1]; cbn [fst snd] in *.
+        * split; cbn [fst snd is_ok is_exn negb]; [exact S1|].
+          intros d Hd. inversion Hd; subst.
+          constructor; [constructor; apply (U1 t m eq_refl)|constructor; exact Hp].
+        * apply capture_under. destruct (IH nn (p ++ [kk]) st1 Hp) as [A B]. split; [|exact B].
+          exact (su_trans _ _ _ _ _ _ S1 A).
       + specialize (IH nn (p ++ [kk]) (emit (LFinish (p ++ [kk], O)) (emit (LInvoke (p ++ [kk], O)) st)) Hp).
         destruct IH as [A B]. split; [|exact B].
         pose proof (su_trans _ _ _ _ _ _
@@ -193,13 +260,10 @@ End SyncUnder.
 Definition sync_under_field k := proj1 (sync_under_all k).
 Definition sync_under_complete k := proj1 (proj2 (sync_under_all k)).
 
-Definition d_under (k : N) (r : D * mstate) (st : mstate) : Prop :=
-  under k (fst r) /\ su k st (snd r) (negb (is_exn (fst r))).
-
 Lemma lift_under k r st : s_under k r st -> d_under k (lift r) st.
 Proof.
   destruct r as [[d|x] st']; unfold s_under, d_under; cbn [fst snd lift is_ok]; intros [A B].
-  - split; [apply B; reflexivity|]. destruct (is_exn d); [apply (su_weaken _ _ _ _ A)|exact A].
+  - split; [apply B; reflexivity|exact A].
   - split; [constructor|exact A].
 Qed.
 
@@ -210,31 +274,6 @@ Proof.
   - split; [constructor|apply su_refl].
   - split; [constructor|]. cbn [fst snd is_exn negb].
     destruct (is_null v); [apply su_emit; exact Hp|apply su_refl].
-Qed.
-
-Lemma add_orphans_under k ds : forall st, Forall (under k) ds -> su k st (add_orphans ds st) false.
-Proof.
-  unfold add_orphans. induction ds as [|d ds IH]; intros st H; simpl; [apply su_refl|].
-  inversion H; subst.
-  exact (su_trans _ _ _ _ _ _ (su_orphan k st d H2) (IH (add_orphan d st) H3)).
-Qed.
-
-Lemma first_exn_none ds : first_exn ds = None -> existsb is_exn ds = false.
-Proof.
-  induction ds as [|d ds IH]; simpl; [reflexivity|]. destruct d; simpl; auto. discriminate.
-Qed.
-
-Lemma gather_norm_under k ds st : Forall (under k) ds -> d_under k (gather_norm ds st) st.
-Proof.
-  intros H. unfold gather_norm. destruct (first_exn ds) as [x|].
-  - split; [constructor|]. apply add_orphans_under. exact H.
-  - destruct (all_vals ds); (split; [constructor; try exact H|apply su_refl]).
-Qed.
-
-Lemma gather_norm_not_exn ds st :
-  is_exn (fst (gather_norm ds st)) = false -> first_exn ds = None.
-Proof.
-  unfold gather_norm. destruct (first_exn ds); [discriminate|reflexivity].
 Qed.
 
 Lemma fire_under k t : forall d st, under k d -> d_under k (fire t d st) st.
@@ -393,7 +432,11 @@ Inductive serial_res (ks : list N) (st st' : mstate) : sres -> Prop :=
 | sr_raise x pre cur post new newo :
     ks = (pre ++ [cur]) ++ post -> log st' = log st ++ new -> blocks (pre ++ [cur]) new ->
     orphans st' = orphans st ++ newo -> Forall (under cur) newo ->
-    serial_res ks st st' (SRaise x).
+    serial_res ks st st' (SRaise x)
+| sr_fail x pre cur post new newo :          (* a field's future had already failed *)
+    ks = (pre ++ [cur]) ++ post -> log st' = log st ++ new -> blocks (pre ++ [cur]) new ->
+    orphans st' = orphans st ++ newo -> Forall (under cur) newo ->
+    serial_res ks st st' (SOk (Exn x)).
 
 Lemma under_p_single k : under_p k ([] ++ [k]).
 Proof. reflexivity. Qed.
@@ -409,31 +452,42 @@ Proof.
     destruct S1 as (new1 & newo1 & Hl1 & Ho1 & Hn1 & Hu1 & He1).
     destruct r1 as [d|x]; cbn [is_ok] in He1.
     + assert (Hud : under k d) by (apply U1; reflexivity).
-      rewrite (He1 eq_refl), app_nil_r in Ho1.
-      assert (Hdef : serial_res (k :: keys_of rest) st st1 (SOk (Bind d (KSerial k acc rest)))).
-      { apply (sr_wait _ _ _ [] k (keys_of rest) d acc rest new1); try reflexivity; try assumption.
-        simpl. rewrite <- (app_nil_r new1). constructor; [exact Hn1|constructor]. }
-      destruct d as [v| | | |]; try exact Hdef.
-      (* plain value: next field *)
-      specialize (IH (acc ++ [(k, v)]) st1).
-      destruct (serial_next (acc ++ [(k, v)]) rest st1) as [r2 st2]. cbn [fst snd] in *.
-      inversion IH as [v' new Hl Hb Ho|pre cur post d acc' rest' new Hk Hl Hb Ho Hu Hr
-                       |x pre cur post new newo Hk Hl Hb Ho Hu]; subst.
-      * apply (sr_done _ _ _ _ (new1 ++ new)).
-        -- rewrite Hl, Hl1, app_assoc. reflexivity.
-        -- constructor; assumption.
-        -- congruence.
-      * apply (sr_wait _ _ _ (k :: pre) cur (keys_of rest') d acc' rest' (new1 ++ new)); try assumption.
-        -- simpl. rewrite Hk. reflexivity.
-        -- rewrite Hl, Hl1, app_assoc. reflexivity.
-        -- simpl. constructor; assumption.
-        -- congruence.
-        -- reflexivity.
-      * apply (sr_raise _ _ _ _ (k :: pre) cur post (new1 ++ new) newo); try assumption.
-        -- simpl. rewrite Hk. reflexivity.
-        -- rewrite Hl, Hl1, app_assoc. reflexivity.
-        -- simpl. constructor; assumption.
-        -- congruence.
+      assert (Hb1 : blocks [k] new1).
+      { rewrite <- (app_nil_r new1). constructor; [exact Hn1|constructor]. }
+      assert (Hdef : is_done d = false ->
+                serial_res (k :: keys_of rest) st st1 (SOk (Bind d (KSerial k acc rest)))).
+      { intros Hnd. assert (Hne : newo1 = []) by (apply He1; destruct d; try discriminate; reflexivity).
+        rewrite Hne, app_nil_r in Ho1.
+        apply (sr_wait _ _ _ [] k (keys_of rest) d acc rest new1); try reflexivity; assumption. }
+      destruct d as [v|x0| | |]; try (apply Hdef; reflexivity).
+      * (* plain value: next field *)
+        rewrite (He1 eq_refl), app_nil_r in Ho1.
+        specialize (IH (acc ++ [(k, v)]) st1).
+        destruct (serial_next (acc ++ [(k, v)]) rest st1) as [r2 st2]. cbn [fst snd] in *.
+        inversion IH as [v' new Hl Hb Ho|pre cur post d acc' rest' new Hk Hl Hb Ho Hu Hr
+                         |x pre cur post new newo Hk Hl Hb Ho Hu
+                         |x pre cur post new newo Hk Hl Hb Ho Hu]; subst.
+        -- apply (sr_done _ _ _ _ (new1 ++ new)).
+           ++ rewrite Hl, Hl1, app_assoc. reflexivity.
+           ++ constructor; assumption.
+           ++ congruence.
+        -- apply (sr_wait _ _ _ (k :: pre) cur (keys_of rest') d acc' rest' (new1 ++ new)); try assumption.
+           ++ simpl. rewrite Hk. reflexivity.
+           ++ rewrite Hl, Hl1, app_assoc. reflexivity.
+           ++ simpl. constructor; assumption.
+           ++ congruence.
+           ++ reflexivity.
+        -- apply (sr_raise _ _ _ _ (k :: pre) cur post (new1 ++ new) newo); try assumption.
+           ++ simpl. rewrite Hk. reflexivity.
+           ++ rewrite Hl, Hl1, app_assoc. reflexivity.
+           ++ simpl. constructor; assumption.
+           ++ congruence.
+        -- apply (sr_fail _ _ _ _ (k :: pre) cur post (new1 ++ new) newo); try assumption.
+           ++ simpl. rewrite Hk. reflexivity.
+           ++ rewrite Hl, Hl1, app_assoc. reflexivity.
+           ++ simpl. constructor; assumption.
+           ++ congruence.
+      * apply (sr_fail _ _ _ _ [] k (keys_of rest) new1 newo1); try assumption; reflexivity.
     + apply (sr_raise _ _ _ _ [] k (keys_of rest) new1 newo1); try assumption; try reflexivity.
       simpl. rewrite <- (app_nil_r new1). constructor; [exact Hn1|constructor].
 Qed.
@@ -462,12 +516,16 @@ Proof.
   unfold start. pose proof (serial_next_shape fs [] st0) as H.
   destruct (serial_next [] fs st0) as [r st]. cbn [fst snd] in H.
   inversion H as [v new Hl Hb Ho|pre cur post d acc rest new Hk Hl Hb Ho Hu Hr
+                  |x pre cur post new newo Hk Hl Hb Ho Hu
                   |x pre cur post new newo Hk Hl Hb Ho Hu]; subst; cbn in Hl, Ho.
   - apply (si_done _ _ (keys_of fs) []); cbn [term ms]; [rewrite app_nil_r; reflexivity| | |reflexivity].
     + rewrite Hl. exact Hb.
     + left. exact Ho.
   - apply (si_run _ _ pre cur (keys_of rest) d acc rest); cbn [term ms]; try assumption; try reflexivity.
     rewrite Hl. exact Hb.
+  - apply (si_done _ _ (pre ++ [cur]) post); cbn [term ms]; [exact Hk| | |reflexivity].
+    + rewrite Hl. exact Hb.
+    + right. exists pre, cur. split; [reflexivity|]. rewrite Ho. exact Hu.
   - apply (si_done _ _ (pre ++ [cur]) post); cbn [term ms]; [exact Hk| | |reflexivity].
     + rewrite Hl. exact Hb.
     + right. exists pre, cur. split; [reflexivity|]. rewrite Ho. exact Hu.
@@ -506,6 +564,7 @@ Proof.
       pose proof (serial_next_shape rest (acc ++ [(cur, v)]) sta) as H2.
       destruct (serial_next (acc ++ [(cur, v)]) rest sta) as [r2 stb]. cbn [fst snd lift] in *.
       inversion H2 as [v' new Hl Hb2 Ho2|pre2 cur2 post2 d2 acc2 rest2 new Hk2 Hl Hb2 Ho2 Hu2 Hr2
+                       |x pre2 cur2 post2 new newo Hk2 Hl Hb2 Ho2 Hu2
                        |x pre2 cur2 post2 new newo Hk2 Hl Hb2 Ho2 Hu2]; subst r2; cbn [lift apply_k fire_list filter app] in Hs;
         inversion Hs; subst s'; clear Hs.
       * apply (si_done _ _ ((pre ++ [cur]) ++ keys_of rest) []); cbn [term ms log orphans].
@@ -517,6 +576,12 @@ Proof.
         -- rewrite Hk, <- Hr, Hk2, !app_assoc. reflexivity.
         -- rewrite Hl. rewrite <- app_assoc. apply blocks_app; assumption.
         -- rewrite Ho2. exact Ho1.
+      * apply (si_done _ _ (((pre ++ [cur]) ++ pre2) ++ [cur2]) post2); cbn [term ms log orphans].
+        -- rewrite Hk, <- Hr, Hk2, !app_assoc. reflexivity.
+        -- rewrite Hl. rewrite <- app_assoc. apply blocks_app; assumption.
+        -- right. exists ((pre ++ [cur]) ++ pre2), cur2. split; [reflexivity|].
+           rewrite Ho2, Ho1. exact Hu2.
+        -- reflexivity.
       * apply (si_done _ _ (((pre ++ [cur]) ++ pre2) ++ [cur2]) post2); cbn [term ms log orphans].
         -- rewrite Hk, <- Hr, Hk2, !app_assoc. reflexivity.
         -- rewrite Hl. rewrite <- app_assoc. apply blocks_app; assumption.
@@ -570,7 +635,7 @@ Fixpoint flds_list (fs : flds) : list fld :=
 Lemma bs_field_invoke p f : In (LInvoke (p ++ [key_of f], O)) (snd (bs_field p f)).
 Proof.
   destruct f as [k dfr nn b]. cbn [bs_field key_of]. destruct (bs_complete nn b (p ++ [k])) as [r es].
-  cbn [snd]. apply in_or_app. left. destruct dfr; left; reflexivity.
+  cbn [snd]. apply in_or_app. left. destruct dfr as [[n e]|]; left; reflexivity.
 Qed.
 
 Lemma bs_fields_each : forall fs p kvs es f,
